@@ -32,5 +32,5 @@ for d in sorted(glob.glob(ROOT + "/seeded/*/")):
         subprocess.run("git -C /repo checkout -- . && git -C /repo clean -fdq", shell=True)
     meta["detected_by"] = det
     json.dump(meta, open(d + "meta.json", "w"), indent=1)
-    print(name, "->", [x["check"] + (" (no-failing-input)" if "no-failing-input-found" in x["line"] else "") for x in det] or "MISSED")
+    print(name, "->", [x["check"] + (" (no-failing-input)" if "no-failing-input-found" in x["line"] else "") + (" !!MACHINERY-ERROR" if x["line"].startswith("MACHINERY") else "") for x in det] or "MISSED")
 subprocess.run(f"rm -rf {ROOT}/replays", shell=True)
